@@ -158,8 +158,51 @@ func checkC17(c CaseC17, x *hx.Ctx) *hx.Failure {
 		return nil
 	}
 
+	// a second, unrelated accumulator lives next to the one under test, is fed OTHER packets between its
+	// steps and is Reset at the same moments: accumulators are independent objects
+	by := packet.NewAccumulator(func([]byte) (bool, error) { return false, nil })
+	var byBuf []byte
+	var byPk [][]byte
+	byN := 0
+	feedBy := func(start bool, where string) *hx.Failure {
+		bm := &ref.Packet{Sync: 0x47, PID: 0x222, PUSI: start, AFC: 1, CC: byN & 15, Payload: bytes.Repeat([]byte{byte(0xB0 + byN%64)}, 184)}
+		byN++
+		bb := bm.MustBytes()
+		q := packet.Packet(bb)
+		if _, err := by.WritePacket(&q); err != nil {
+			return hx.Failf("bystander-error", "%s: a second accumulator (predicate never done) refused a packet with payload: %v", where, err)
+		}
+		if start {
+			byBuf, byPk = nil, nil
+		}
+		byBuf = append(byBuf, bm.Payload...)
+		byPk = append(byPk, clone(bb[:]))
+		return nil
+	}
+	checkBy := func(where string) *hx.Failure {
+		if got := by.Bytes(); !bytes.Equal(got, byBuf) {
+			return hx.Failf("bystander-bytes", "%s: Bytes() of a second accumulator fed other packets is wrong (%d bytes, want %d, first difference at %d)", where, len(got), len(byBuf), firstDiff(got, byBuf))
+		}
+		pk := by.Packets()
+		if len(pk) != len(byPk) {
+			return hx.Failf("bystander-packets", "%s: Packets() of a second accumulator fed other packets has %d entries, want %d", where, len(pk), len(byPk))
+		}
+		for i := range pk {
+			if pk[i] == nil || !bytes.Equal(pk[i][:], byPk[i]) {
+				return hx.Failf("bystander-packets", "%s: Packets()[%d] of a second accumulator is not the packet it was given", where, i)
+			}
+		}
+		return nil
+	}
+	if f := feedBy(true, "start"); f != nil {
+		return f
+	}
+
 	for i, o := range c.Ops {
 		where := fmt.Sprintf("step %d %s (pred %s k=%d)", i, o.Kind, c.Pred, c.K)
+		if f := feedBy(false, where); f != nil {
+			return f
+		}
 		switch o.Kind {
 		case "bytes", "packets":
 			// observation happens after every step anyway
@@ -168,6 +211,10 @@ func checkC17(c CaseC17, x *hx.Ctx) *hx.Failure {
 			acc.Reset()
 			shadow = packet.NewAccumulator(pred)
 			m = &c17Model{}
+			by.Reset()
+			if f := feedBy(true, where); f != nil {
+				return f
+			}
 		case "write", "write-same":
 			var b [188]byte
 			if o.Kind == "write-same" {
@@ -263,6 +310,9 @@ func checkC17(c CaseC17, x *hx.Ctx) *hx.Failure {
 		if f := observe(i, where); f != nil {
 			return f
 		}
+		if f := checkBy(where); f != nil {
+			return f
+		}
 	}
 	x.NT(nRestart > 0 || nAfterDone > 0 || nPredErr > 0 || nReset > 0)
 	x.LabelIf(nRestart > 0, "second-unit-start")
@@ -323,7 +373,7 @@ func isSubseq(small, big [][]byte) bool {
 var propC17 = hx.Register(hx.Prop[CaseC17]{ID: "C17", Gen: genC17, Check: checkC17})
 
 func c17Rule() {
-	hx.Rec("C17").SetRule("cases: histories of 1..30 calls (WritePacket with a generated well-formed packet: PUSI on/off, payload-less, af_len 0, short payload behind stuffing, full payload, or the previous packet again byte for byte; Bytes; Packets; Reset) on one accumulator with a drawn predicate (done when >= k bytes, error when >= k bytes, done and error at once when >= k bytes, never, always; k from {0,1,10,184,185,300,368,500,1000}). Oracle: a three-state reference model (starting/accumulating/done, byte buffer, packet list); after EVERY call Bytes() and Packets() are compared with the model, returned slices are scribbled on and the caller's packet is modified to detect aliasing, and after a Reset a fresh accumulator is driven in lockstep (differential). Non-trivial: the history contains a second unit start, a write after completion, a predicate error, or a Reset.",
+	hx.Rec("C17").SetRule("cases: histories of 1..30 calls (WritePacket with a generated well-formed packet: PUSI on/off, payload-less, af_len 0, short payload behind stuffing, full payload, or the previous packet again byte for byte; Bytes; Packets; Reset) on one accumulator with a drawn predicate (done when >= k bytes, error when >= k bytes, done and error at once when >= k bytes, never, always; k from {0,1,10,184,185,300,368,500,1000}). Oracle: a three-state reference model (starting/accumulating/done, byte buffer, packet list); after EVERY call Bytes() and Packets() are compared with the model, returned slices are scribbled on and the caller's packet is modified to detect aliasing, and after a Reset a fresh accumulator is driven in lockstep (differential); a second accumulator is fed other packets between the steps, Reset at the same moments, and checked as well. Non-trivial: the history contains a second unit start, a write after completion, a predicate error, or a Reset.",
 		"a payload-less packet that passed the unit-start gate may or may not appear in Packets(): the list must contain the contributing packets in order and nothing but packets submitted since the last unit start",
 		"only well-formed packets are written (malformed ones are C05's business)")
 }
